@@ -213,6 +213,15 @@ def judge_scans(ctx, stream, n):
             mods = sorted({sc.module_of(q) for q, v in tree.items() if v is None or q.endswith(".py")})
             tree[p] = "".join(f"import {rng.choice(mods)}\n" for _ in range(rng.randint(0, 2))) + rng.choice(["", "import c9.c8\n", "import c0x\n"])
         mp = rng.choice(dirs)
+        if mp != "c0":
+            # absolute imports spelled relative to module_path's parent directory (C04): how they resolve must not depend on
+            # how the directories above module_path are called
+            parent = sc.module_of(mp).rsplit(".", 1)[0]
+            inside = [m for m in sorted({sc.module_of(q) for q, v in tree.items() if v is None or q.endswith(".py")}) if m.startswith(sc.module_of(mp))]
+            for p in [q for q in tree if q.endswith(".py") and q.startswith(mp + "/")]:
+                if inside and rng.random() < 0.6:
+                    t = rng.choice(inside)[len(parent) + 1:]
+                    tree[p] += rng.choice([f"import {t}\n", f"from {t} import thing\n", f"import {t} as q\n"])
         # second pool: components that look like file suffixes / contain the root's name / are prefixes of "__init__"
         r1, r2 = renamings(rng, (ADV_IDENT, ADV_SCAN, ADV_CASE))
         o1, o2 = _scan((tree, mp, r1)), _scan((tree, mp, r2))
@@ -261,4 +270,11 @@ def run(ctx: Ctx):
     s = Stream(ctx, "(d) scans with module_path below root under two renamings")
     judge_scans(ctx, s, ctx.size(150, 3000))
     s.finish()
+    if not ctx.violations:
+        from . import c07
+
+        s = Stream(ctx, "(e) diagram rules over sibling components whose names are string prefixes of one another (conformance by whole dotted components)")
+        rng = ctx.rng("diagrams")
+        c07.judge(ctx, s, [c07.make_case(rng, ["a", "ab", "a_b", "aa", "b", "ba", "a1", "abc"], absent=False) for _ in range(ctx.size(3000, 60000))])
+        s.finish()
     return RULE
